@@ -94,6 +94,9 @@ PHolds(p, idxs) ==
     [] p.o = "and" -> PHolds(p.a, idxs) /\ PHolds(p.b, idxs)
     [] p.o = "or"  -> PHolds(p.a, idxs) \/ PHolds(p.b, idxs)
 Fires(ix) == IF cfg.carrier = "counting" THEN Len(ix) = cfg.n ELSE PHolds(cfg.pred, ix)
+\* HAVING (optional, counting carrier): a complete batch is delivered only if the predicate holds over ITS rows; a rejected
+\* batch is consumed all the same and leaves nothing behind for the key's next batch
+Delivers(ix) == "having" \notin DOMAIN cfg \/ PHolds(cfg.having, ix)
 
 \* ---- counting carrier ----
 BufIdx(kt) == {i \in 1..Len(buf) : buf[i].key = kt}
@@ -134,11 +137,11 @@ Next ==
         /\ IF cfg.carrier \in {"counting", "global"} THEN
               LET kt == KeyTuple(e.row)  bi == BufIdx(kt)  i == Len(rows) + 1 IN
               IF bi = {} THEN
-                   IF Fires(<<i>>) THEN /\ exp' = Append(exp, [kv |-> KeyVals(e.row), idxs |-> <<i>>]) /\ buf' = buf
+                   IF Fires(<<i>>) THEN /\ exp' = (IF Delivers(<<i>>) THEN Append(exp, [kv |-> KeyVals(e.row), idxs |-> <<i>>]) ELSE exp) /\ buf' = buf
                    ELSE /\ buf' = Append(buf, [key |-> kt, kv |-> KeyVals(e.row), idxs |-> <<i>>]) /\ exp' = exp
               ELSE LET b == CHOOSE j \in bi : TRUE  ix == Append(buf[b].idxs, i) IN
                    IF Fires(ix) THEN
-                        /\ exp' = Append(exp, [kv |-> buf[b].kv, idxs |-> ix])
+                        /\ exp' = (IF Delivers(ix) THEN Append(exp, [kv |-> buf[b].kv, idxs |-> ix]) ELSE exp)
                         /\ buf' = [buf EXCEPT ![b].idxs = <<>>]
                    ELSE /\ buf' = [buf EXCEPT ![b].idxs = ix] /\ exp' = exp
            ELSE UNCHANGED <<buf, exp>>
